@@ -602,5 +602,21 @@ func runC14(tier string, seed uint64) {
 		}
 		s.end()
 	}
+	// keys of one group that are not neighbours in key order (one of them begins with the delimiter, which
+	// the grouping strips; another group lies between them): the complete listing still names each group once
+	{
+		s := newSess("c14", "mem", SessOpts{})
+		b := singleBucketName
+		s.MkBucket(b)
+		for _, k := range []string{"/a/x", "/b/x", "a/y", "plain", "b/z", "/a/w"} {
+			s.Initiate(b, k, nil)
+		}
+		for _, pd := range [][2]string{{"", "/"}, {"", ""}, {"a", "/"}, {"/", "/"}, {"b/", "/"}} {
+			s.ListUploads(b, pd[0], pd[1], "", "", -1)
+			s.ListUploads(b, pd[0], pd[1], "", "", 1000)
+		}
+		nontrivial("uploads-groups-not-adjacent")
+		s.end()
+	}
 	sample("histories of 14-24 ops (initiate over up to 6 keys incl. keys sharing 'b/' and 'b', upload-part with gaps {1,2,3,5,8,13,40}, abort, complete), then for every pending upload: ListParts walks for every max-parts 1..n+1 following NextPartNumberMarker, arbitrary markers {0,1,2,4,13,14,41,42,10^6}; ListMultipartUploads walks for every max-uploads 1..n+1 over 6 prefix/delimiter combinations following (NextKeyMarker, NextUploadIdMarker)")
 }
